@@ -31,6 +31,11 @@ CLAIMED = {
          "Tables: 'alive never maps to terminal' and 'only success maps to FINISHED (for every string)' are re-proved against the current source on every run; parsing: the fold theorem shows each queried id gets the state of the last row whose id field equals it exactly and None when absent; the Lean parser is validated against the real squeue/sacct/bjobs parsers on generated outputs (padding, prefix ids, array/step rows, blank lines, malformed stream) and all exit codes.",
          "Trusted: Lean kernel; standard axioms; the translator (cross-checked against the real _state on the vocabulary + random strings every run); the hand-entered vocabulary/classification of scheduler states (Model/SchedVocab.lean); Python re.split/str.split/strip modelled for ASCII. Known finding: Slurm STOPPED (ST).",
          "DESIGN.md §6 C16"),
+ "C12": ("proof",
+         "Lean 4 round-trip theorem readCsv(writeCsv t) = t for comma/newline-free fields + proved counterexamples; lock-protocol invariant over all writer/reader schedules (no torn read); byte-level correspondence of the real write_status / csvtable_to_dict with the model after every poll of conductor-level scenarios; recorded lock/file operation order vs the model's programs",
+         "The reader/writer pair is proved to round-trip every table whose fields contain no comma, newline or carriage return (the unrestricted statement is false: two known findings with Lean witnesses). Concurrent reads: for every interleaving of the modelled writer and reader (including lock time-outs) a completed read returns a complete table; the modelled programs are checked against the operation order recorded from the real code on every run. Row completeness/consistency is monitored against the scripted scheduler's ledger after every poll.",
+         "Trusted: Lean kernel; standard axioms; filelock/OS mutual exclusion and atomicity of a single write (runtime behaviour, sampled by the thorough-tier multi-process stress run); text-mode newline translation modelled; timestamps columns compared as written.",
+         "DESIGN.md §6 C12"),
  "C14": ("proof",
          "Lean 4 theorems over Model/Dag.lean (acyclicity invariant, DFS cycle-detection soundness/completeness, toposort, BFS/DFS exactness, fuel sufficiency) + operation-sequence correspondence with the real DAG class + property monitor",
          "Machine-checked theorems for all operation sequences and all graphs over a hand-written model of dag.py; the model is tied to the code on every run by a differential run (random + bounded-exhaustive operation sequences, state compared after every operation) and the property is also monitored directly on the real graph.",
